@@ -524,4 +524,57 @@ theorem length_lcaLevel (fs : Rat) (n : Nat) (level : Nat) (ivs : Ivals) (m : Ma
 
 theorem length_zeros (n : Nat) : (zeros n).length = n := by simp [zeros]
 
+/-! ### `_meet`: label agreements by index -/
+
+/-- the frame slice of segment `i` (by index) -/
+def segAt (nf : List (Nat × Nat)) (i : Nat) : Nat × Nat := (nf[i]?).getD (0, 0)
+
+theorem length_meetStep (level : Nat) (m : Mat) (pq : ((Nat × Nat) × Nat) × ((Nat × Nat) × Nat)) :
+    (meetStep level m pq).length = m.length := by
+  unfold meetStep
+  simp only
+  split <;> simp [length_setBlock]
+
+theorem length_foldl_meetStep {α : Type} (level : Nat) (f : α → ((Nat × Nat) × Nat) × ((Nat × Nat) × Nat)) (l : List α) (m : Mat) :
+    (l.foldl (fun m x => meetStep level m (f x)) m).length = m.length := by
+  induction l generalizing m with
+  | nil => rfl
+  | cons x t ih => rw [List.foldl_cons, ih, length_meetStep]
+
+theorem mem_triuAgree {keys : List String} {i j : Nat} (h : (i, j) ∈ triuAgree keys) :
+    i < keys.length ∧ j < keys.length := by
+  unfold triuAgree at h
+  simp only [List.mem_flatMap, List.mem_map, List.mem_filter, Prod.mk.injEq] at h
+  obtain ⟨x, hx, y, ⟨hy, _⟩, rfl, rfl⟩ := h
+  have h1 := List.mem_zipIdx_iff_getElem?.1 hx
+  have h2 := List.mem_zipIdx_iff_getElem?.1 hy
+  exact ⟨(List.getElem?_eq_some_iff.1 h1).1, (List.getElem?_eq_some_iff.1 h2).1⟩
+
+theorem mem_triuAgree_diag (keys : List String) (k : Nat) (hk : k < keys.length) : (k, k) ∈ triuAgree keys := by
+  unfold triuAgree
+  simp only [List.mem_flatMap, List.mem_map, List.mem_filter, Prod.mk.injEq]
+  have hm : (keys[k], k) ∈ keys.zipIdx := List.mem_zipIdx_iff_getElem?.2 (List.getElem?_eq_getElem hk)
+  exact ⟨(keys[k], k), hm, (keys[k], k), ⟨hm, by simp⟩, rfl, rfl⟩
+
+/-- the model's agreeing segment pairs = the index pairs of the translated code, with the frame slices looked up by index -/
+theorem agreePairs_eq_triuAgree (keys : List String) (nf : List (Nat × Nat)) (h : keys.length ≤ nf.length) :
+    agreePairs (keys.zip nf) = (triuAgree keys).map fun ij => ((segAt nf ij.1, ij.1), (segAt nf ij.2, ij.2)) := by
+  have hk : keys.zipIdx = ((keys.zip nf).zipIdx).map (Prod.map Prod.fst id) := by
+    conv => lhs; rw [← List.map_fst_zip h]
+    rw [List.zipIdx_map]
+  have hseg : ∀ x ∈ (keys.zip nf).zipIdx, x.1.2 = segAt nf x.2 := by
+    intro x hx
+    have h1 := List.mem_zipIdx_iff_getElem?.1 hx
+    have h2 := (List.getElem?_zip_eq_some.1 h1).2
+    unfold segAt; rw [h2]; rfl
+  unfold agreePairs triuAgree
+  rw [hk]
+  simp only [List.flatMap_map, List.map_flatMap, List.filter_map, List.map_map]
+  apply List.flatMap_congr
+  intro x hx
+  apply List.map_congr_left
+  intro y hy
+  have hy' := (List.mem_filter.1 hy).1
+  simp only [Function.comp, Prod.map, id, hseg x hx, hseg y hy']
+
 end Mir.PyH
